@@ -3,7 +3,7 @@ from ..kengine import H
 
 ID = "C11"
 MODULE = "c11"
-ENGINE = "K"
+ENGINE = "KM"
 
 NET_STUBS = [
     "kani::stub(<std::net::TcpStream as std::io::Read>::read, crate::net::stub_read)",
@@ -27,8 +27,8 @@ META = {
     "assumes": ["a TcpStream value fabricated from fd 3 (never used for a syscall)"],
     "outside_bounds": [
         "the opening handshake (Response serialisation uses format!; SHA-1/Base64 kernels are C18)",
-        "MESSAGE ASSEMBLY: 'receiving delivers exactly the messages sent' (data frames, fragments) is NOT decided — Kani/CBMC runs out of memory on Message::from_stream's Vec<Frame> path (measured); only control-frame handling, sending and the non-blocking header logic are claimed",
-        "payloads > 2 bytes per frame, scripts of more than 2 frames, 16/64-bit length forms on this path (C10 covers them at frame level)",
+        "engine K (these harnesses): message assembly is not reachable — Kani/CBMC runs out of memory on Message::from_stream's Vec<Frame> path (measured); control-frame handling, sending and the non-blocking header logic only; payloads <= 2 bytes per frame, scripts of <= 2 frames",
+        "engine M (message assembly, see `message_assembly`): script shapes beyond the listed ones — more than 4 frames (5 in the thorough tier), payloads above 300 bytes (the 64 KiB chunk loop of the frame decoder is C03/C10), several recv calls on one stream (each call is decided from an arbitrary script, the only state carried over is the read position)",
         "read segmentations other than whole / byte-wise / one split point; real sockets, abrupt disconnects mid-frame beyond EOF",
         "the async app (C12)",
     ],
@@ -78,3 +78,84 @@ def harnesses():
     for x in hs:
         x.module = MODULE
     return hs
+
+
+def run(tier, run_k):
+    """Engine K harnesses (control frames, sending, non-blocking header logic over the compiled code) + engine M (message assembly
+    over the MIR of recv / recv_nonblocking / Drop with a symbolic client script)."""
+    import json, os, time
+    from ..common import WORK, REPLAY_DIR, log, write_evidence
+    from . import c11_msg
+    k = run_k()
+    t0, rc, cov, assumptions, nviol = k["t0"], k["rc"], k["cov"], k["assumptions"], k["violations"]
+    from mirsym.dump import dump_mir
+    work = os.path.join(WORK, ID)
+    try:
+        mir, dt = dump_mir("humphrey-ws", work, features="verif")
+        d = c11_msg.run_part(tier, work, mir)
+    except Exception as e:
+        log("UNDISCHARGED: message assembly — %s" % str(e)[:500])
+        d = {"results": [], "violations": [], "machinery": [], "undischarged": [{"job": "all", "why": str(e)[:300]}], "validation": {}}
+    for r in d["violations"][:1]:
+        path = os.path.join(REPLAY_DIR, "C11-msg.json")
+        os.makedirs(REPLAY_DIR, exist_ok=True)
+        with open(path, "w") as f:
+            json.dump({"property": ID, "engine": "M", "kind": "msg", "replay": r["replay"], "how": "./check C11 --replay " + path}, f, indent=1)
+        log("VIOLATION property=%s replay=%s" % (ID, path))
+        rp = r["replay"]
+        log("   %s" % rp["request"][:300])
+        log("   natively (dev / release): %s / %s" % (rp["native_dev"][:200], rp["native_release"][:200]))
+        log("   an RFC 6455 receiver: %s ; written %s   [failed: %s]" % (" or ".join(rp["expected"]["results"])[:200], rp["expected"]["written"][:200], rp["failed"][:200]))
+        rc = 1
+        nviol += 1
+    for m in d["machinery"]:
+        log("MACHINERY-ERROR: message assembly — " + m[:600])
+        rc = rc or 2
+    for r in d["undischarged"][:6]:
+        log("UNDISCHARGED: message assembly %s — %s" % (r.get("job"), r.get("why")))
+    ok = [r for r in d["results"] if r["verdict"] == "unsat"]
+    log("   message assembly (engine M): %d/%d script shapes discharged, %d paths, %d control sequences (%d in the claim), %d z3 checks, translator validation on %s scripts" % (
+        len(ok), len(d["results"]), sum(r.get("paths", 0) for r in d["results"]), sum(r.get("ctrl_sequences", 0) for r in d["results"]),
+        sum(r.get("ctrl_sequences", 0) - r.get("outside_sequences", 0) for r in d["results"]), sum(r.get("n_checks", 0) for r in d["results"]), d["validation"].get("inputs")))
+    cov["evaluations"] += len(d["results"])
+    cov["distinct_nontrivial"] += len(ok)
+    cov["obligations"] = cov.get("obligations", 0) + len(d["results"])
+    cov["discharged"] = cov.get("discharged", 0) + len(ok)
+    cov["states"] = cov.get("states", 0) + sum(r.get("blocks", 0) for r in d["results"])
+    cov["transitions"] = cov.get("transitions", 0) + sum(r.get("n_checks", 0) for r in d["results"])
+    cov["traces_validated_against_impl"] = cov.get("traces_validated_against_impl", 0) + (d["validation"].get("inputs") or 0)
+    cov["solver_time_s"] = round(cov.get("solver_time_s", 0) + sum(r.get("solver_s", 0) for r in d["results"]), 2)
+    cov["message_assembly"] = {
+        "functions_encoded": ["humphrey-ws/src/stream.rs: WebsocketStream::{recv, recv_nonblocking}, <WebsocketStream as Drop>::drop",
+                              "humphrey-ws/src/message.rs: Message::{from_stream, from_stream_nonblocking} and their closures",
+                              "humphrey-ws/src/frame.rs: Frame::{from_stream, from_stream_nonblocking, from_stream_inner, new}, <Opcode as TryFrom<u8>>::try_from, From<Frame> for Vec<u8>, derived PartialEq of Opcode",
+                              "humphrey-ws/src/util/restion.rs: From<Result<T, E>> for Restion<T, E>   (all from the MIR of the current working tree, bit-vector mode)"],
+        "bounds": "per obligation one script SHAPE is concrete (1..4 frames quick / 1..5 thorough; payload length 0..126 quick / ..300 thorough incl. the 125/126 boundary; 7/16/64-bit length forms incl. non-minimal; mask bit; bytes cut from the end 0..9 (abrupt disconnect); bytes delivered before a non-blocking call) and the CONTENT is symbolic: first header byte (FIN, RSV, opcode) of every frame, masking keys, every payload byte",
+        "method": "symbolic execution forks on the opcode/FIN tests; per return path the solver enumerates the control sequences (opcode, FIN per frame) compatible with the path condition; for each RFC-valid sequence: result, payload bytes, text flag, bytes consumed, closed flag and all bytes written (incl. the drop-time Close) are proved equal to an RFC 6455 receiver for all keys/payload bytes; invalid sequences (unknown opcode, continuation first, new data opcode inside a message, fragmented control frame, RSV != 0) only get `no panic`",
+        "shapes": len(d["results"]), "discharged": len(ok),
+        "paths": sum(r.get("paths", 0) for r in d["results"]),
+        "control_sequences": sum(r.get("ctrl_sequences", 0) for r in d["results"]),
+        "control_sequences_in_claim": sum(r.get("ctrl_sequences", 0) - r.get("outside_sequences", 0) for r in d["results"]),
+        "z3_checks": sum(r.get("n_checks", 0) for r in d["results"]),
+        "symex_s": round(sum(r.get("symex_s", 0) for r in d["results"]), 1), "solver_s": round(sum(r.get("solver_s", 0) for r in d["results"]), 1),
+        "stream_model": "NetStream value: read_exact/read/write_all/set_(non)blocking of humphrey::stream::Stream are modelled (not executed): read_exact delivers the next n script bytes or fails at the end; a non-blocking read returns min(2, delivered - position) bytes, WouldBlock when nothing is pending, Ok(0) after the peer's shutdown; once a blocking read has to wait the rest of the script counts as delivered",
+        "std_models_trusted": "Vec<u8>/Vec<Frame> new/push/append/extend/from_elem/len/index, slice iter/iter_mut/enumerate/for_each/fold/first/last, Option::map/unwrap_or, Result::map_err/ok/is_err, u16/u64 from_be_bytes/to_be_bytes, u64::min, io::Error::kind, Instant::now (opaque)",
+        "translator_validation": d["validation"],
+        "samples": [{k2: r.get(k2) for k2 in ("job", "verdict", "paths", "ctrl_sequences", "outside_sequences", "n_checks", "wall_s")} for r in d["results"][:12]],
+        "undischarged": d["undischarged"][:10],
+        "violations": [r["replay"] for r in d["violations"]][:3],
+    }
+    cov["functions_encoded"] = list(cov.get("functions_encoded", [])) + cov["message_assembly"]["functions_encoded"]
+    cov.setdefault("engines", {})["mirsym"] = "own MIR symbolic executor (/verif/mirsym) + z3 5.1.0"
+    assumptions = assumptions + ["message assembly: the NetStream model of the connection and the listed std models; the MIR text printed by rustc nightly reflects the compiled functions (checked per run on random concrete scripts against the native build on a loopback socket)"]
+    write_evidence(ID, tier, cov, assumptions, time.time() - t0, nviol)
+    log("== %s: %d/%d obligations discharged (K harnesses + M message assembly), %d violation(s); %.0fs wall" % (ID, cov["discharged"], cov["obligations"], nviol, time.time() - t0))
+    return rc
+
+
+def replay(d, path):
+    from .. import mengine, kengine
+    from . import c11_msg
+    mengine.setup(ID)
+    kengine.write_lists({})
+    return c11_msg.replay(d, path)
